@@ -190,12 +190,27 @@ fn end_viol(mode: Mode, viol_seen: &mut usize, fails: &mut Vec<Fail>) {
 }
 
 pub struct RunOut {
+    /// callback log with serials translated to model tags (0 = not an object the model knows)
+    pub cb_tags: Vec<(char, i64, i64)>,
+    /// survivors (key tag, class, value tag) in slot order, when the container could be read
+    pub post: Option<Vec<(i64, u8, i64)>>,
     pub callbacks: u64,
     pub eq_asked: usize,
     pub cb_log: Vec<(char, u32, u32)>,
     pub fails: Vec<Fail>,
     pub injected: bool,
     pub panicked: bool,
+}
+
+fn translate(ctx: &Ctx, log: &[(char, u32, u32)]) -> Vec<(char, i64, i64)> {
+    let tag = |sr: u32| -> i64 {
+        if sr == 0 {
+            return 0;
+        }
+        let t = ctx.tags.rk.get(&sr).or_else(|| ctx.tags.rv.get(&sr)).copied().unwrap_or(0);
+        t.max(0)
+    };
+    log.iter().map(|(k, a, b)| (*k, tag(*a), tag(*b))).collect()
 }
 
 /// one execution of the edge `t` on a freshly built container with the ledger's panic
@@ -251,11 +266,15 @@ fn run_map<const N: usize>(mode: Mode, t: &Value, panic_at: u64, script: Option<
             props: prop(mode).into(),
             msg: format!("memory outside the container was written or len() = {len} exceeds capacity {N} (canaries intact: {})", cage.intact()),
         });
+        let cb_tags = translate(&ctx, &cb_log);
         std::mem::forget(cage);
         std::mem::forget(ctx);
-        return RunOut { callbacks, eq_asked, cb_log, fails, injected, panicked };
+        return RunOut { cb_tags, post: None, callbacks, eq_asked, cb_log, fails, injected, panicked };
     }
     let post: Vec<(KO, Option<VO>)> = observe_map(&cage.m).into_iter().map(|(k, v)| (k, Some(v))).collect();
+    bind_late(&mut ctx);
+    let cb_tags = translate(&ctx, &cb_log);
+    let post_tags: Vec<(i64, u8, i64)> = post.iter().map(|(k, v)| (ctx.tags.ktag(k.serial).max(0), k.class, v.map(|v| ctx.tags.vtag(v.serial).max(0)).unwrap_or(0))).collect();
     judge_safety(mode, &post, len, &mut ctx, &mut viol_seen, &mut fails);
     // stash (e.g. clones kept by the executor) and held objects go first, then further use
     drop(ctx);
@@ -263,7 +282,7 @@ fn run_map<const N: usize>(mode: Mode, t: &Value, panic_at: u64, script: Option<
     further_use_map(mode, &mut cage, &mut viol_seen, &mut fails);
     drop(cage);
     end_viol(mode, &mut viol_seen, &mut fails);
-    RunOut { callbacks, eq_asked, cb_log, fails, injected, panicked }
+    RunOut { cb_tags, post: Some(post_tags), callbacks, eq_asked, cb_log, fails, injected, panicked }
 }
 
 fn run_set<const N: usize>(mode: Mode, t: &Value, panic_at: u64, script: Option<Vec<bool>>) -> RunOut {
@@ -314,26 +333,47 @@ fn run_set<const N: usize>(mode: Mode, t: &Value, panic_at: u64, script: Option<
             props: prop(mode).into(),
             msg: format!("memory outside the container was written or len() = {len} exceeds capacity {N} (canaries intact: {})", cage.intact()),
         });
+        let cb_tags = translate(&ctx, &cb_log);
         std::mem::forget(cage);
         std::mem::forget(ctx);
-        return RunOut { callbacks, eq_asked, cb_log, fails, injected, panicked };
+        return RunOut { cb_tags, post: None, callbacks, eq_asked, cb_log, fails, injected, panicked };
     }
     let post: Vec<(KO, Option<VO>)> = observe_set(&cage.m).into_iter().map(|k| (k, None)).collect();
+    bind_late(&mut ctx);
+    let cb_tags = translate(&ctx, &cb_log);
+    let post_tags: Vec<(i64, u8, i64)> = post.iter().map(|(k, _)| (ctx.tags.ktag(k.serial).max(0), k.class, 0)).collect();
     judge_safety(mode, &post, len, &mut ctx, &mut viol_seen, &mut fails);
     drop(ctx);
     end_viol(mode, &mut viol_seen, &mut fails);
     further_use_set(mode, &mut cage, &mut viol_seen, &mut fails);
     drop(cage);
     end_viol(mode, &mut viol_seen, &mut fails);
-    RunOut { callbacks, eq_asked, cb_log, fails, injected, panicked }
+    RunOut { cb_tags, post: Some(post_tags), callbacks, eq_asked, cb_log, fails, injected, panicked }
 }
 
-fn run_any(mode: Mode, set_mode: bool, t: &Value, panic_at: u64, script: Option<Vec<bool>>) -> RunOut {
+pub fn run_any(mode: Mode, set_mode: bool, t: &Value, panic_at: u64, script: Option<Vec<bool>>) -> RunOut {
     let n = t["n"].as_u64().unwrap() as usize;
     if set_mode {
         with_n!(n, run_set, mode, t, panic_at, script)
     } else {
         with_n!(n, run_map, mode, t, panic_at, script)
+    }
+}
+
+/// objects created during the call get the model's tags: clones 20 + source tag, Default 31
+fn bind_late(ctx: &mut Ctx) {
+    let (clones, defaults) = ledger::with(|l| (l.clones.clone(), l.defaults.clone()));
+    for (src, new) in clones {
+        if let Some(t) = ctx.tags.rk.get(&src).copied() {
+            ctx.tags.bind_k(20 + t, new);
+        } else if let Some(t) = ctx.tags.rv.get(&src).copied() {
+            ctx.tags.bind_v(20 + t, new);
+        }
+    }
+    if let Some(d) = defaults.first() {
+        if !ctx.tags.v.contains_key(&FRESH) {
+            ctx.tags.bind_v(FRESH, *d);
+        }
     }
 }
 
